@@ -62,7 +62,9 @@ def entries(ctx):
         any_w = [r for r in e['refs'] if r['write']]
         pt = _pointee(u.expand_type(qtype(d)))
         why = ''
-        if cls == 'immutable' and pt is None:
+        if d.get('tls'):
+            kind = 'thread-local'       # no sharing between threads; still carries history within one
+        elif cls == 'immutable' and pt is None:
             kind = 'immutable'
         elif cls in ('atomic', 'mutex'):
             kind = cls
